@@ -405,7 +405,7 @@ class Mir:
                         cur.append(line)
         self._impl_cache = {}
         self._index = None
-        self.enums = None
+        self.enums = None; self.enum_discr = {}
 
     # ---- source-derived tables -----------------------------------------------------------
     def _src(self, rel):
@@ -482,11 +482,19 @@ class Mir:
                 for m in re.finditer(r'\benum (\w+)\s*(<[^{]*>)?\s*(where[^{]*)?\{', txt):
                     k = match_close(txt, m.end() - 1); body = txt[m.end():k]
                     body = re.sub(r'//[^\n]*', '', body); body = re.sub(r'#\[[^\]]*\]', '', body)
-                    vs = []
+                    vs = []; explicit = {}
                     for part in split_top(body):
                         mm = re.match(r'^\s*(\w+)', part)
                         if mm: vs.append(mm.group(1))
+                        md = re.match(r'^\s*(\w+)\s*=\s*(-?\d+)\s*$', part)
+                        if md: explicit[md.group(1)] = int(md.group(2))
                     enums.setdefault(m.group(1), vs)
+                    if explicit:
+                        # C-like enum with explicit discriminants: unlisted variants continue from the previous value
+                        table = {}; nxt = 0
+                        for v in vs:
+                            nxt = explicit.get(v, nxt); table[v] = nxt; nxt += 1
+                        self.enum_discr[m.group(1)] = table
         self.enums = enums
         return enums
 
